@@ -419,6 +419,11 @@ pub fn select(s: &S) -> SelectStatement {
             "condwhere" => {
                 q.cond_where(conds::cond(&l[0]));
             }
+            "andorwhere" => {
+                // the doc-hidden and_or_where(LogicalChainOper)
+                let e = expr(&l[1]);
+                q.and_or_where(if l[0].atom() == "or" { LogicalChainOper::Or(e) } else { LogicalChainOper::And(e) });
+            }
             "groupby" => {
                 let is_col = matches!(l[0].head(), "col" | "star" | "tstar");
                 match (exprs::shash(c) % 3, is_col) {
@@ -729,6 +734,11 @@ pub fn update(s: &S) -> UpdateStatement {
             "condwhere" => {
                 q.cond_where(conds::cond(&l[0]));
             }
+            "andorwhere" => {
+                // the doc-hidden and_or_where(LogicalChainOper)
+                let e = expr(&l[1]);
+                q.and_or_where(if l[0].atom() == "or" { LogicalChainOper::Or(e) } else { LogicalChainOper::And(e) });
+            }
             "orderby" => {
                 let is_col = matches!(l[0].head(), "col" | "star" | "tstar");
                 let alt = exprs::shash(c) % 2 == 1 && is_col;
@@ -778,6 +788,11 @@ pub fn delete(s: &S) -> DeleteStatement {
             }
             "condwhere" => {
                 q.cond_where(conds::cond(&l[0]));
+            }
+            "andorwhere" => {
+                // the doc-hidden and_or_where(LogicalChainOper)
+                let e = expr(&l[1]);
+                q.and_or_where(if l[0].atom() == "or" { LogicalChainOper::Or(e) } else { LogicalChainOper::And(e) });
             }
             "orderby" => {
                 let is_col = matches!(l[0].head(), "col" | "star" | "tstar");
